@@ -424,6 +424,10 @@ class Interp:
 
     def st_For(self, s, env):
         it = self.ev(s.iter, env)
+        from . import models as _models
+
+        if isinstance(it, _models.FlatSeq):
+            it = it.as_symseq(self)
         if isinstance(it, SymSeq) and it.concrete_len() is None:
             from . import models
 
@@ -913,6 +917,8 @@ class Interp:
 
         gens = e.generators
         first_iter = self.ev(gens[0].iter, env)
+        if isinstance(first_iter, models.FlatSeq):
+            first_iter = first_iter.as_symseq(self)
         if isinstance(first_iter, SymSeq) and first_iter.concrete_len() is None:
             return models.symbolic_comprehension(self, e, env, kind, first_iter)
         out_list = []
@@ -971,6 +977,8 @@ class Interp:
             return [v.at(i) for i in range(ln)]
         if isinstance(v, Sym):
             raise Unsupported(f"iteration over scalar symbol {v!r}")
+        if getattr(v, "is_symbolic_value", False) and self.models.iterate.get(type(v)) is None:
+            raise Unsupported(f"concrete iteration over {type(v).__name__}")
         h = self.models.iterate.get(type(v))
         if h is not None:
             return h(self, v)
